@@ -11,6 +11,7 @@ import BibVerif.Wire.Interpolate
 import BibVerif.Wire.Month
 import BibVerif.Wire.SortFields
 import BibVerif.Wire.SortBlocks
+import BibVerif.Wire.Names
 namespace Bib.Wire
 
 /-- every command the driver understands -/
@@ -19,5 +20,6 @@ def handlers : List (String × Handler) :=
   ++ entryOpsHandlers ++ libraryHandlers
   ++ writerHandlers ++ enclosingHandlers ++ interpolateHandlers
   ++ monthHandlers ++ fieldHandlers ++ sortBlocksHandlers
+  ++ namesHandlers
 
 end Bib.Wire
